@@ -19,6 +19,8 @@ SECS_PER_EVENT = 600
 CHUNK = 640          # events per TLC trace file
 ROUND = 4 * CHUNK    # cases per round
 BOUNDARY_SODS = [0, 43200, 86399, 1, 3600]
+# formats without a seconds field (spec: DateSerial!DisplayFormats / DisplayAs)
+DISPLAY_FORMATS = ["yyyy-mm-dd", "dd/mm/yyyy", "m/d/yyyy", "d-mmm-yy", "yyyy/mm/dd;@", "yyyy-mm-dd hh:mm"]
 ONE_DAY = datetime.timedelta(days=1)
 
 
@@ -112,6 +114,29 @@ def gen_cases(chk, distinct, stats):
             yield days_case(edges[0][0], 0, True, days=edges)
             yield days_case(edges[0][0], rng.choice([86399, 43200, rng.randrange(1, 86400)]), True, days=edges)
             edges = []
+    # 3b. date formats without a seconds field (and one date + hh:mm format): the date shown is the date of
+    #     the serial however late in the day it is - the unshown units are dropped, never rounded up
+    days = [(1999, 12, 31), (9999, 12, 31), (1900, 12, 31), (2023, 1, 31), (2023, 4, 30), (2023, 2, 28), (1900, 2, 28),
+            (2100, 2, 28), (2024, 2, 28), (2024, 2, 29), (2000, 2, 29), (1900, 1, 1), (1900, 3, 1), (2024, 5, 23)]
+    for _ in range(3):
+        o = rng.randint(datetime.date(FIRST, 1, 1).toordinal(), datetime.date(LAST, 12, 31).toordinal())
+        days.append(datetime.date.fromordinal(o).timetuple()[:3])
+    if thorough:
+        for y in range(FIRST, LAST + 1, 10):                      # a year end and a month end per decade
+            m = rng.randint(1, 11)
+            days += [(y, 12, 31), (datetime.date(y, m + 1, 1) - ONE_DAY).timetuple()[:3]]
+    times = [(0, 0, 0), (12, 0, 0), (23, 59, 29), (23, 59, 30), (23, 59, 45), (23, 59, 59)]
+    if thorough:
+        times += [(11, 59, 59), (0, 0, 59), (9, 59, 30)]
+    for f in DISPLAY_FORMATS:
+        items = [list(d) + list(t) for d in days for t in times]
+        for i in range(0, len(items), 600):
+            stats["display_items"] += len(items[i:i + 600])
+            stats["date_only_display_items"] = stats.get("date_only_display_items", 0) + len(items[i:i + 600])
+            yield {"a": "disp", "format": f, "items": items[i:i + 600]}
+    for (y, m, d) in days:
+        for (h, mi, sec) in times:
+            distinct.add(y, m, d, h * 3600 + mi * 60 + sec)
     # 4. every second of representative days
     rep = [(1900, 2, 28), (9999, 12, 31)]
     if thorough:
@@ -135,7 +160,9 @@ def gen_cases(chk, distinct, stats):
 
 
 def describe(case, ev, detail):
-    if case["a"] == "days":
+    if case["a"] == "disp":
+        head = f"display under format '{case['format']}' ({len(case['items'])} date-times)"
+    elif case["a"] == "days":
         head = f"days batch year {case['y']} at second-of-day {case['sod']} ({len(case['days'])} days)"
     else:
         head = f"seconds {case['from']}..{case['from'] + case['count'] - 1} of {case['y']}-{case['m']}-{case['d']}"
@@ -303,7 +330,10 @@ def run(chk):
         "the returned chrono value is read through its Display text",
         "'gives the value defined by the date system' is read for a binary double as: integer part = day number "
         "exactly, fraction within 2^-13 s (0.12 ms; 3 ulp of the largest serial) of seconds/86400",
-        "the displayed text is checked for the number format 'yyyy-mm-dd hh:mm:ss' only (quick: every day of 160 "
+        "the displayed text is checked for the number format 'yyyy-mm-dd hh:mm:ss' and, on year ends / month ends / "
+        "leap days / ordinary days at 00:00:00, 12:00:00, 23:59:29, 23:59:30, 23:59:45, 23:59:59, for yyyy-mm-dd, "
+        "dd/mm/yyyy, m/d/yyyy, d-mmm-yy, yyyy/mm/dd;@ and yyyy-mm-dd hh:mm (unshown units are dropped, not rounded); "
+        "the hh:mm:ss format is swept over (quick: every day of 160 "
         "selected years at one time of day, every day of 1900, 9999, 2024, 2000, 2100 and a seeded year at 00:00:00, "
         "the edge days of every year at 00:00:00 and at another time, 1/12 of the seconds; thorough: every day of every third "
         "year as well, 1/3 of the seconds)",
